@@ -34,6 +34,8 @@ char *sim_repo_strndup(const char *s, size_t n);
 /** fault point for allocators other than malloc (umem_sim): consumes one step
  * of the armed countdown, returns true if this allocation must fail */
 bool sim_alloc_fault_point(const char *what);
+/** switches the fault points of the other allocators off (the armed countdown then only counts malloc callers) */
+void sim_alloc_fault_points(bool on);
 
 /* ---- umem_sim: a umem manager with accounting, red zones and faults */
 struct umem_mgr;
